@@ -146,6 +146,23 @@ class DiscExecutor(BlockExecutor):
         if re.search(r"VacantEntry::<.*>::insert$", f):
             st.events.append(("gen_vacant",))
             return super().call(st, body, t)
+        # on_demand.rs: a block of jobs is drained from the shared queue into a local Vec and popped from there
+        if re.search(r"VecDeque::<.*>::drain::<", f) and tcs and tcs[0][1][0] == "deque":
+            x = self.fresh_int("left")
+            st.pc.append(x >= 0)
+            st.heap[tcs[0][0]] = ("deque", x)
+            return ("opaque", f"drain#{next(self.fresh)}")
+        if re.search(r" as Iterator>::collect::<Vec<\(", f) and "IdSet" in f:
+            x = self.fresh_int("local_jobs")
+            st.pc.append(x >= 0)
+            return ("deque", x)
+        if re.search(r"^Vec::<\(.*IdSet.*\)>::pop$", f) and tcs and tcs[0][1][0] == "deque":
+            c, v = tcs[0]
+            job, d = self._job(st)
+            st.events.append(("pop_job", d, "pop", tuple(st.heap[c2] for _, c2 in job[1])))
+            st.events.append(("pop_some", v[1] > 0))
+            st.heap[c] = ("deque", z3.If(v[1] > 0, v[1] - 1, 0))
+            return ("opt", v[1] > 0, st.alloc(job))
         mq = re.search(r"VecDeque::<.*>::(push_back|push_front)$", f)
         if mq and args[1][0] == "struct":
             st.events.append(("push_tuple", tuple(st.heap[c] for _, c in sorted(args[1][1], key=lambda kv: kv[0]))))
@@ -189,7 +206,7 @@ def obligations(name, text, lib_rs, helpers=None):
     Ex.exp_locals = exp_locals
     Ex.term_local = int(re.search(r"debug is_terminal => _(\d+);", text).group(1)) if re.search(r"debug is_terminal => _(\d+);", text) else None
     Ex.await_local = int(re.search(r"debug is_awaiting_discoveries => _(\d+);", text).group(1)) if re.search(r"debug is_awaiting_discoveries => _(\d+);", text) else None
-    X = explore(name, text, helpers, cls=Ex, precise_loops=True)
+    X = explore(name, text, helpers, cls=Ex, precise_loops=True, allow_no_limit=(name == "on_demand"))
     ex, body, outs, base, loops, outer, dbg = X["ex"], X["body"], X["outs"], X["base"], X["loops"], X["outer"], X["dbg"]
     for need in ("is_terminal", "is_awaiting_discoveries"):
         if need not in dbg:
